@@ -1,9 +1,10 @@
 /-
 C13 — one coroutine (returning Future / Task / SharedFuture) and everything it co_awaits.
 
-Written from /repo (as it is, including the executor swap D12; D3 was repaired by /repo commit c9c07bc):
-  coro/detail/promise_type.hpp    PromiseType: `Here/Next(caller)` = `_executor = std::move(caller._executor)` (IntrusivePtr
-                                  move-assignment is a *Swap*) then resume; `Call` = resume; `Drop` = `Store(StopTag)`,
+Written from /repo (as it is; D3 was repaired by /repo commit c9c07bc, the executor swap D12 by 8ca0444, ~Task of a completed
+Task D13 by 2690a63):
+  coro/detail/promise_type.hpp    PromiseType: `Here/Next(caller)` = `_executor = caller._executor` (a copy since 8ca0444; before:
+                                  `std::move`, and IntrusivePtr move-assignment is a *Swap*: D12) then resume; `Call` = resume; `Drop` = `Store(StopTag)`,
                                   `SetResult`; `Destroy::await_suspend` (final_suspend) = `SetResult`; the frame is destroyed
                                   by the state's deleter (`PromiseTypeDeleter::Delete` = `handle.destroy()`)
   coro/detail/await_awaiter.hpp   AwaitSingleAwaiter<Shared> (`co_await future`), AwaitAwaiter<Handle,false> (`Await(x)`),
@@ -31,8 +32,8 @@ current awaiter) and a flag saying that callbacks of *somebody else* are registe
 of the same SharedFuture).  The environment may, at any time,
   * fulfil a cell (`pXchg`: Store + exchange(kResult); a Task only after it was started),
   * register a foreign callback on a SharedFuture that has other observers (`envPush`),
-  * change the executor stored in a core other parties can reach (`envSwap`: other coroutines resumed by the same shared
-    core swap executors with it; a running Task may change its own),
+  * change the executor stored in a started Task (`envSwap`: a running Task may move to another executor; nobody writes the
+    executor of any other awaited core since 8ca0444),
   * Call or Drop a job that was submitted to an executor (the IExecutor contract: exactly one of them).
 Several coroutines on one SharedFuture = several instances of this model sharing the cell; each sees the others as
 `foreign` (the trace validator checks every coroutine's projection of a real multi-coroutine run).
@@ -220,13 +221,14 @@ structure State where
   published : List Res
   frameDestroyed : Nat
   localDtors : Nat
+  tasksReleased : List Nat       -- completed Tasks whose Task object was destroyed
 
 def initCell (c : CellW) : Cell := { word := .open [] false, started := false, cexec := c.exec0 }
 
 def init (w : Workload) : State :=
   { w := w, cells := fun j => initCell (w.cell j), pc := .idle, todo := w.prog, k := 0, st := [], cnt := 0, exec := 0, ex0 := 0,
     failed := false, live := w.locals, result := none, dropped := false,
-    resumed := [], submits := [], published := [], frameDestroyed := 0, localDtors := 0 }
+    resumed := [], submits := [], published := [], frameDestroyed := 0, localDtors := 0, tasksReleased := [] }
 
 inductive CasOut where
   | ok | retry | fail
@@ -236,7 +238,7 @@ inductive Label where
   -- environment
   | pXchg (j : Nat)                    -- cell j is fulfilled: Store + exchange(kResult)
   | envPush (j : Nat)                  -- somebody else registers a callback on shared cell j
-  | envSwap (j : Nat) (e : Nat)        -- somebody else changes the executor stored in core j
+  | envSwap (j : Nat) (e : Nat)        -- the started Task j changes the executor stored in its core
   | fire (j : Nat) (p : Nat)           -- the fulfiller of cell j runs my callback p
   | exCall | exDrop                    -- the executor Calls / Drops the submitted coroutine
   -- the coroutine (or, for `submit`, the thread that completed the awaited object)
@@ -248,6 +250,7 @@ inductive Label where
   | submit (e : Nat)
   | resume (got : Option (Option Res)) (allDone : Bool)
   | current (e : Nat)
+  | tdtor (j : Nat)                    -- ~Task of a Task that was only Await()ed (it completed and is still valid)
   | ldtor | ret | publish (r : Res) | fdtor
   deriving DecidableEq, Repr
 
@@ -370,11 +373,12 @@ def doMsub (s : State) (op : Op) : State :=
 def doMsuspend (s : State) (op : Op) : State :=
   if s.cnt = 1 then { s with cnt := s.cnt - 1, pc := selfDone op.kind } else { s with cnt := s.cnt - 1, pc := .susp }
 
-/-- `StoreCallback` (a plain store: the Task has not started) and the start of the Task; starting goes through
-    `PromiseType::Next(caller)`, which swaps the executors of the Task and of the awaiting coroutine -/
+/-- `StoreCallback` (a plain store: the Task has not started) and the start of the Task; a coroutine Task is started through
+    `PromiseType::Next(caller)`, which copies the awaiting coroutine's executor into the Task (a Schedule()-headed Task keeps its
+    own: covered by `envSwap`) -/
 def doTstore (s : State) (j : Nat) : State :=
   { s with cells := upd s.cells j { word := .open [0] false, started := true, cexec := s.exec },
-           exec := (s.cells j).cexec, st := s.st.set 0 .pending, pc := .susp }
+           st := s.st.set 0 .pending, pc := .susp }
 
 /-- the fulfiller of cell j runs my callback p -/
 def doFire (s : State) (op : Op) (j p : Nat) (walk : List Nat) : State :=
@@ -389,21 +393,17 @@ def doSubmit (s : State) (e : Nat) : State :=
 def doDrop (s : State) : State :=
   { s with pc := .fin, result := some .err, dropped := true }
 
-/-- resumption by the completing thread goes through `PromiseType::Here/Next(caller)`: the executors of the coroutine and
-    of the completed core are swapped -/
+/-- resumption by the completing thread goes through `PromiseType::Here/Next(caller)`: the coroutine takes (a copy of) the
+    executor stored in the completed core — "continue where the producer is"; the core keeps it (until 8ca0444 the two were
+    swapped: D12) -/
 def execAfter (s : State) (c : Ctx) : Nat :=
   match c with
   | .cell j => (s.cells j).cexec
   | _ => s.exec
 
-def cellsAfter (s : State) (c : Ctx) : Nat → Cell :=
-  match c with
-  | .cell j => upd s.cells j { s.cells j with cexec := s.exec }
-  | _ => s.cells
-
 def doResume (s : State) (op : Op) (rest : List Op) (c : Ctx) : State :=
   { s with pc := .idle, k := s.k + 1, todo := if escapes s op then [] else rest,
-           failed := s.failed || escapes s op, exec := execAfter s c, cells := cellsAfter s c,
+           failed := s.failed || escapes s op, exec := execAfter s c,
            resumed := s.resumed ++ [{ k := s.k, op := op, ctx := c, allDone := allDoneOf s op, got := gotOf s op,
                                        exBefore := s.ex0, exAfter := execAfter s c }] }
 
@@ -417,10 +417,12 @@ def doRet (s : State) : State := { s with pc := .fin, result := some (finalRes s
 def doPublish (s : State) (r : Res) : State := { s with pc := .done, published := s.published ++ [r] }
 def doFdtor (s : State) : State := { s with pc := .gone, frameDestroyed := s.frameDestroyed + 1 }
 
-/-- who may change the executor stored in core j behind the coroutine's back: the other coroutines resumed by the same shared
-    core, and a Task that was started (it may move to another executor while it runs; over-approximated: also afterwards) -/
+/-- who may change the executor stored in core j behind the coroutine's back: only a Task that was started (it may move to
+    another executor while it runs; over-approximated: also afterwards) -/
 def swapAllowed (s : State) (j : Nat) : Bool :=
-  s.w.unsafeCell j || ((s.w.cell j).lazy && (s.cells j).started)
+  (s.w.cell j).lazy && (s.cells j).started
+
+def doTdtor (s : State) (j : Nat) : State := { s with tasksReleased := s.tasksReleased ++ [j] }
 
 inductive Step : State → Label → State → Prop where
   /-- Promise::Set / ~Promise / a coroutine's final_suspend: Store, exchange(kResult); my callbacks are run afterwards -/
@@ -473,6 +475,12 @@ inductive Step : State → Label → State → Prop where
       Step s (.resume (gotOf s op) (allDoneOf s op)) (doResume s op rest c)
   | current (s : State) (op : Op) (rest : List Op) (h : s.pc = .curr) (ht : s.todo = op :: rest) :
       Step s (.current s.exec) (doCurrent s op rest)
+  /-- `~Task` of a Task that completed (it was started by `co_await Await(task)`) and is still valid: `Valid() && !Ready()` is
+      false, so nothing is cancelled — the Task just releases its core (since 2690a63; before, it was cancelled: `StoreCallback`
+      over the `result` word, `Drop` of the finished coroutine, a second `exchange`: D13).  The destructor of a Task that has not
+      completed (Cancel) is C12's matter and not a step of this model. -/
+  | tdtor (s : State) (j : Nat) (h : s.pc = .idle) (hl : (s.w.cell j).lazy = true) (hr : (s.word j).isResult = true) :
+      Step s (.tdtor j) (doTdtor s j)
   /-- co_return (`return_value` = Store, then the scopes are left) / an exception leaves the body (the scopes are left, then
       `unhandled_exception` = Store): the body is over, the Result is determined -/
   | ret (s : State) (h : s.pc = .idle) (ht : s.todo = []) : Step s .ret (doRet s)
@@ -580,6 +588,8 @@ def next (s : State) : Label → Option State
       match s.todo with
       | op :: rest => if s.pc = .curr ∧ e = s.exec then some (doCurrent s op rest) else none
       | [] => none
+  | .tdtor j =>
+      if s.pc = .idle ∧ (s.w.cell j).lazy = true ∧ (s.word j).isResult = true then some (doTdtor s j) else none
   | .ldtor => if ((s.pc = .fin ∧ s.dropped = false) ∨ s.pc = .done) ∧ 0 < s.live then some (doLdtor s) else none
   | .ret => if s.pc = .idle ∧ s.todo = [] then some (doRet s) else none
   | .publish r =>
@@ -751,6 +761,11 @@ theorem next_sound {s : State} {l : Label} {s' : State} (h : next s l = some s')
         split at h
         · rename_i hg; cases h; obtain ⟨h1, h2⟩ := hg; subst h2; exact .current s op rest h1 ht
         · cases h
+      · cases h
+  | tdtor j =>
+      simp only [next] at h
+      split at h
+      · rename_i hg; cases h; exact .tdtor s j hg.1 hg.2.1 hg.2.2
       · cases h
   | ldtor =>
       simp only [next] at h
